@@ -137,53 +137,78 @@ def kmovOfSize (n : Nat) : Option (Mn × Bool) :=
 def isSignCast (dt st : Nat) : Bool :=
   (dt = 36 && st = 34) || (dt = 38 && st = 34) || (dt = 40 && st = 34) || (dt = 38 && st = 36) || (dt = 40 && st = 36) || (dt = 40 && st = 38)
 
-/-- x86 `EmitHelper::emit_arg_move`; `none` = `kInvalidState`. The final `if (src.is_mem()) set_size(src_size)` is applied. -/
-def x86ArgMove (c : Cfg) (dstRt dstId dt : Nat) (src : Opnd) (st : Nat) : Option Inst :=
+/-- what `emit_arg_move` looks at of its source operand -/
+inductive SrcKind
+  | mem
+  | reg (rt : Nat)
+  deriving DecidableEq, Repr
+
+def SrcKind.isMem : SrcKind → Bool | .mem => true | _ => false
+def SrcKind.isReg : SrcKind → Bool | .reg _ => true | _ => false
+def SrcKind.isGroup (k : SrcKind) (g : Nat) : Bool := match k with | .reg rt => groupOf rt = g | _ => false
+def Opnd.kind : Opnd → SrcKind | .mem .. => .mem | .reg rt _ => .reg rt
+
+/-- the instruction `emit_arg_move` selects, without the register ids / address: mnemonic, destination register type, the register
+    type the source register is re-viewed as (if any), and the memory operand size -/
+structure MoveSel where
+  name : Mn
+  vex : Bool
+  dstRt : Nat
+  srcRt : Option Nat
+  memSize : Nat
+  deriving DecidableEq, Repr
+
+def MoveSel.apply (m : MoveSel) (dstId : Nat) (src : Opnd) : Inst :=
+  ⟨m.name, m.vex, [.reg m.dstRt dstId, ((match m.srcRt with | some r => src.withRt r | none => src).withSize m.memSize)]⟩
+
+/-- x86 `EmitHelper::emit_arg_move`, the selection (independent of register ids and of the address); `none` = `kInvalidState`.
+    The final `if (src.is_mem()) set_size(src_size)` is the `memSize` field. -/
+def x86Sel (c : Cfg) (dstRt dt : Nat) (src : SrcKind) (st : Nat) : Option MoveSel :=
   let dt := if dt = 0 then typeIdOfReg dstRt else dt
   let dsz := tySize dt
   let ssz := tySize st
-  let fin (name : Mn × Bool) (drt : Nat) (s : Opnd) (msz : Nat) : Option Inst := some ⟨name.1, name.2, [.reg drt dstId, s.withSize msz]⟩
+  let fin (name : Mn × Bool) (drt : Nat) (s : Option Nat) (msz : Nat) : Option MoveSel := some ⟨name.1, name.2, drt, s, msz⟩
   -- the chain of `if`s of the pseudo loop; each returns `some` on `break`, falls to the next otherwise
-  let intPart : Option (Option Inst) :=
+  let intPart : Option (Option MoveSel) :=
     if isInt dt then
       if isInt st && isSignCast dt st then
-        some (fin (p (if dt = 40 && st = 38 then .movsxd else .movsx)) (gpRtOfSize dsz) (src.withRt (gpRtOfSize ssz)) ssz)
+        some (fin (p (if dt = 40 && st = 38 then .movsxd else .movsx)) (gpRtOfSize dsz) (some (gpRtOfSize ssz)) ssz)
       else if isInt st || src.isMem then
         let movSize := min ssz dsz
         let dsz' := if movSize ≤ 4 then 4 else dsz
         let ssz' := min ssz movSize
-        some (fin (p (if movSize < 4 then .movzx else .mov)) (gpRtOfSize dsz') (src.withRt (gpRtOfSize ssz')) ssz')
+        some (fin (p (if movSize < 4 then .movzx else .mov)) (gpRtOfSize dsz') (some (gpRtOfSize ssz')) ssz')
       else
         let ssz' := min ssz dsz
-        if isMmx st then some (if ssz' = 8 then fin (p .movq) dstRt src ssz' else fin (p .movd) 5 src ssz')
+        if isMmx st then some (if ssz' = 8 then fin (p .movq) dstRt none ssz' else fin (p .movd) 5 none ssz')
         else if isMask st then
           some (match kmovOfSize ssz' with
-                | some n => fin n (if ssz' ≤ 4 then 5 else 6) src ssz'
+                | some n => fin n (if ssz' ≤ 4 then 5 else 6) none ssz'
                 | none => none)
-        else if isVec st then some (if ssz' = 8 then fin (v c .movq) dstRt src ssz' else fin (v c .movd) 5 src ssz')
+        else if isVec st then some (if ssz' = 8 then fin (v c .movq) dstRt none ssz' else fin (v c .movd) 5 none ssz')
         else none
     else none
   match intPart with
   | some r => r
   | none =>
-  let mmxPart : Option (Option Inst) :=
+  let mmxPart : Option (Option MoveSel) :=
     if isMmx dt then
       let ssz' := min ssz dsz
-      if isInt st || src.isMem then some (if ssz' = 8 then fin (p .movq) dstRt src ssz' else fin (p .movd) dstRt (src.withRt 5) ssz')
-      else if isMmx st then some (fin (p .movq) dstRt src ssz')
-      else if isVec st then some (fin (p .movdq2q) dstRt src ssz')
+      if isInt st || src.isMem then some (if ssz' = 8 then fin (p .movq) dstRt none ssz' else fin (p .movd) dstRt (some 5) ssz')
+      else if isMmx st then some (fin (p .movq) dstRt none ssz')
+      else if isVec st then some (fin (p .movdq2q) dstRt none ssz')
       else none
     else none
   match mmxPart with
   | some r => r
   | none =>
   let ssz1 := if isMmx dt then min ssz dsz else ssz     -- `src_size` as left by the mmx block
-  let maskPart : Option (Option Inst) :=
+  let maskPart : Option (Option MoveSel) :=
     if isMask dt then
       let ssz' := min ssz1 dsz
       if isInt st || isMask st || src.isMem then
         some (match kmovOfSize ssz' with
-              | some n => fin n dstRt (if src.isGroup 0 && ssz' ≤ 4 then src.withRt 5 else src) ssz'
+              | some n => fin n dstRt (if src.isGroup 0 && ssz' ≤ 4 then some 5 else none) ssz'
               | none => none)
       else none
     else none
@@ -192,7 +217,7 @@ def x86ArgMove (c : Cfg) (dstRt dstId dt : Nat) (src : Opnd) (st : Nat) : Option
   | none =>
   let ssz2 := if isMask dt then min ssz1 dsz else ssz1
   if isVec dt then
-    if src.isGroup 3 then fin (p .movq2dq) 11 src ssz2
+    if src.isGroup 3 then fin (p .movq2dq) 11 none ssz2
     else
       let dsc := scalarOf dt
       let ssc := scalarOf st
@@ -200,21 +225,25 @@ def x86ArgMove (c : Cfg) (dstRt dstId dt : Nat) (src : Opnd) (st : Nat) : Option
         let ssz' := min (dsz * 2) ssz2
         let dsz' := ssz' / 2
         fin (v c (if ssz' ≤ 8 then .cvtsd2ss else .cvtpd2ps)) (if dsz' = 32 then 12 else 11)
-            (if src.isReg then src.withRt (vecRtBySize ssz') else src) ssz'
+            (some (vecRtBySize ssz')) ssz'
       else if dsc = tFloat64 && ssc = tFloat32 then
         let ssz' := min dsz (ssz2 * 2) / 2
         let dsz' := ssz' * 2
         fin (v c (if ssz' ≤ 4 then .cvtss2sd else .cvtps2pd)) (vecRtBySize dsz')
-            (if src.isReg && ssz' ≥ 32 then src.withRt 12 else src) ssz'
+            (if ssz' ≥ 32 then some 12 else none) ssz'
       else
         let ssz' := min ssz2 dsz
-        if (src.isGroup 0 || src.isMem) && ssz' ≤ 4 then fin (v c .movd) 11 (src.withRt 5) ssz'
-        else if (src.isGroup 0 || src.isMem) && ssz' = 8 then fin (v c .movq) 11 src ssz'
+        if (src.isGroup 0 || src.isMem) && ssz' ≤ 4 then fin (v c .movd) 11 (some 5) ssz'
+        else if (src.isGroup 0 || src.isMem) && ssz' = 8 then fin (v c .movq) 11 none ssz'
         else if src.isGroup 1 || src.isMem then
           let aligned := !(src.isMem && ssz' < c.stackAlign)
-          fin (v c (if aligned then .movaps else .movups)) (vecRtBySize ssz') (src.withRt (vecRtBySize ssz')) ssz'
+          fin (v c (if aligned then .movaps else .movups)) (vecRtBySize ssz') (some (vecRtBySize ssz')) ssz'
         else none
   else none
+
+/-- x86 `EmitHelper::emit_arg_move` -/
+def x86ArgMove (c : Cfg) (dstRt dstId dt : Nat) (src : Opnd) (st : Nat) : Option Inst :=
+  (x86Sel c dstRt dt src.kind st).map fun m => m.apply dstId src
 
 /-- x86 `EmitHelper::emit_reg_move`, store form (dst memory, src register): the memory takes the register's size -/
 def x86Store (c : Cfg) (base : Nat) (off : Int) (srcRt srcId : Nat) (t : Nat) : Option Inst :=
